@@ -452,6 +452,54 @@ def check_attr_branch(ck, prog):
           key="ATTR:full-mode-needs-group")
 
 
+# long option -> short option it is documented as a synonym of (xz(1), "Operation modifiers" / "Other options")
+LONG_SHORT = {
+    "compress": "z", "decompress": "d", "uncompress": "d", "test": "t", "list": "l",
+    "keep": "k", "force": "f", "stdout": "c", "to-stdout": "c", "suffix": "S",
+    "quiet": "q", "verbose": "v", "no-warn": "Q", "format": "F", "check": "C", "threads": "T",
+    "memlimit": "M", "memory": "M", "extreme": "e", "help": "h", "long-help": "H", "version": "V",
+    "fast": "0", "best": "9",
+}
+
+
+def check_longopts(ck, prog):
+    """The exit-status and keep/force/stdout clauses are stated for the options as documented: `--no-warn` is `-Q`
+    (warnings do not change the exit status), `--keep` is `-k`, ...  The getopt_long() table must map each long option
+    that has a short form to that short form."""
+    ck.rule("C19-OPTMAP", "parse_real: every long option with a documented short synonym maps to that short option")
+    f = prog.fn("parse_real", "args.c", target="xz")
+    ck.saw_function(f)
+    tab = None
+    for b, i, e in f.iter_elems():
+        d = ex.deref(e)
+        if d.get("k") == "decl" and d.get("n") == "long_opts" and d.get("init") is not None:
+            tab = (ex.strip(d["init"]), e)
+    if tab is None or tab[0].get("k") != "init":
+        raise AnalysisBroken("parse_real: long_opts table not found")
+    got = {}
+    for x in tab[0]["e"]:
+        x = ex.strip(x)
+        if x is None or x.get("k") != "init" or not x.get("fields"):
+            continue
+        ent = dict(zip(x["fields"], x["e"]))
+        nm = ex.show(ex.strip(ent["name"])).strip('"')
+        got[nm] = (ex.const_val(ent["val"]), ex.const_val(ent["flag"]))
+    n = 0
+    for nm, short in sorted(LONG_SHORT.items()):
+        if nm not in got:
+            raise AnalysisBroken("parse_real: long option --%s vanished from long_opts" % nm)
+        n += 1
+        v, fl = got[nm]
+        ok = v == ord(short) and fl in (0, None)
+        ck.ob("C19-OPTMAP", "--" + nm, ok, common.where(f, tab[1]),
+              "--%s -> -%s" % (nm, short) if ok else
+              "parse_real(): the long option --%s is mapped to %s instead of -%s: the documented behaviour of --%s (and what "
+              "scripts that spell options out rely on) is that of -%s" % (
+                  nm, ("-" + chr(v)) if v is not None and 32 < v < 127 else v, short, nm, short), key="OPTMAP:--" + nm)
+    ck.floor("C19-OPTMAP", 20)
+    return n
+
+
 def run(ck):
     ck.explanation = (
         "Table agreement between the compress and decompress suffix tables; finite-domain evaluation of "
@@ -463,6 +511,10 @@ def run(ck):
     prog = common.program(ck, ("xz",))
     check_suffix(ck, prog)
     check_suffix_boundary(ck, prog)
+    # the timestamps copied from the source survive only if nothing writes to the target afterwards (C17-ORDER)
+    from . import C17
+    C17.check_order(ck, prog)
+    check_longopts(ck, prog)
     check_src(ck, prog)
     check_attr(ck, prog)
     check_attr_branch(ck, prog)
